@@ -20,6 +20,11 @@ Five case kinds (``desc['kind']``):
            refinement (ratio per 2x refinement and an absolute bound).
 ``grid``   ``reciprocal_grid`` against the documented formula and
            ``realspace_grid(reciprocal_grid(g)) == g``.
+``hist``   call histories on one DFT / FT operator (forward and inverse
+           classes, both signs): init_fftw_plan, clear_fftw_plan, calls
+           out-of-place / with out=, inputs and outputs in C, Fortran and
+           strided layout, create / clear temporaries; the value clause is
+           evaluated after every call.
 ``wav``    wavelet transforms: differential against direct PyWavelets calls,
            inverse on arbitrary coefficient vectors, round trip relative to
            PyWavelets' own round-trip error, Gram adjoint identity and norm
@@ -78,7 +83,7 @@ LEVEL_NOTE = ('Trusted: NumPy (incl. numpy.fft as one of two DFT oracles), '
               'a case does not depend on the process history; pyfftw results '
               'are never bit-compared.')
 DESIGN_REF = 'DESIGN.md section 5, C18'
-BUDGET = {'quick': 2400, 'thorough': 24000}
+BUDGET = {'quick': 3000, 'thorough': 30000}
 
 TOLERANCES = {
     'dft': '|got-ref|_inf <= 32*eps(dtype)*max(1,log2 N)*||x||_2, N = product '
@@ -103,6 +108,7 @@ TOLERANCES = {
     'wavelet_adjoint': 'Gram defect and norm defect <= 64*eps*dim + 4*delta, '
                        'delta = max|M^T M - I| of the PyWavelets matrix M of '
                        'the same configuration',
+    'history': 'the dft / ft tolerances, after every call of the history',
     'inputs': 'bit-identical to pre-call copies',
     'floor': 'every value tolerance has the absolute floor 1e3*tiny(dtype) '
              '(subnormal range, FFTW may flush to zero)',
@@ -111,13 +117,16 @@ ASSUMPTIONS = [
     'element data is finite, seeded or explicit in the descriptor, |x| ~ 1',
     'DFT enumeration: one seeded input (and one derived second input) per '
     'configuration',
-    'real domains with an unshifted transformed axis (F30), real domains '
-    'with halfcomplex=False in the plain DFT (F19) and the other recorded '
-    'regions are evaluated, not skipped; their failures carry region-specific '
-    'signatures',
+    'regions of recorded findings (real domains with an unshifted '
+    'transformed axis, inverse of the real full DFT, length-1 axes with the '
+    'default DFT range) are evaluated, not skipped; their failures carry '
+    'region-specific signatures',
     'Gaussian cases: coarsest stride <= 1.3 a, half width >= 6 a + offset of '
-    'the Gaussian centre, real domains only with shift=True (complement of '
-    'F30)',
+    'the Gaussian centre, real domains only with shift=True',
+    'call histories: real domains only with shift=True (FT) and not for the '
+    'inverse of the real full DFT (recorded findings); init_fftw_plan / '
+    'clear_fftw_plan on a NumPy-backed operator must raise ValueError '
+    '(documented)',
     'wavelet adjoint identity only for orthogonal wavelets (dmey through the '
     'PyWavelets defect), pad_mode pywt_periodic, sizes divisible by '
     '2**nlevels',
@@ -126,17 +135,24 @@ ASSUMPTIONS = [
 ]
 RULE = ('DFT: itertools enumeration of the finite configuration space, input '
         'data from a seed derived from the configuration; FT / gauss / grid '
-        '/ wavelet: Hypothesis composite strategies that construct only '
-        'admissible inputs. Non-trivial = odd size in a transformed axis, or '
+        '/ wavelet / call-history: Hypothesis composite strategies that '
+        'construct only admissible inputs (a history is a sequence of 2-6 '
+        'operations from init_fftw_plan, clear_fftw_plan, call out-of-place '
+        '/ with out= in C, Fortran or strided layout, create / clear '
+        'temporaries on one operator of the four transform classes, value '
+        'clause after every call). Non-trivial = any call history, or odd '
+        'size in a transformed axis, or '
         'proper / permuted axes subset, or halfcomplex, or mixed per-axis '
         'shift, or pyfftw with out= / aliased out, or (wavelets) nlevels >= '
         '2 / odd size / axes subset / adjoint configuration; distinct by '
         'sha1 of the case descriptor')
 EXHAUSTIVE = {
     'quick': ['plain DFT, every configuration as a forward case (values, '
-              'two calls, input preservation, back-end difference) and as an '
-              'inverse case (op.inverse, directly built inverse of the same '
-              'back-end, round trip): 1-D sizes {1,2,3,4,5,8}; 2-D shapes '
+              'two calls plus a third after init_fftw_plan() for pyfftw, '
+              'input preservation, back-end difference) and as an inverse '
+              'case (op.inverse, directly built inverse of the same back-end '
+              'without and with init_fftw_plan(), round trip): 1-D sizes '
+              '{1,2,3,4,5,8}; 2-D shapes '
               'over {1,2,3,4,5,8} with product <= 25; x all ordered non-empty '
               'axes subsets x halfcomplex x sign x {float32,float64,'
               'complex64,complex128} x {numpy,pyfftw} x {out-of-place, out=} '
@@ -486,7 +502,16 @@ def _run_dft(desc):
                           x1, axes, sign, eff_hc)) <= tol)
         if fwd_ok:
             y_first = y.asarray().copy()
-    for call, x in ((1, x1), (2, x2)) if part == 'fwd' else ():
+    calls = [(1, x1), (2, x2)] if part == 'fwd' else []
+    if calls and impl == 'pyfftw':
+        calls.append((3, x1))         # after init_fftw_plan()
+    for call, x in calls:
+        if call == 3:
+            okp, e = _try(op.init_fftw_plan)
+            if not okp:
+                fails.add('C18|dft-call-crash|{}|{}'.format(
+                    type(e).__name__, region + ',at=init_fftw_plan'), _exc(e))
+                break
         ref_np = R.numpy_dft(x, axes, sign, eff_hc)
         ref_d = R.dense_dft(x, axes, sign, eff_hc)
         tol = 32 * eps * logn * float(np.linalg.norm(x.ravel())) + \
@@ -496,7 +521,7 @@ def _run_dft(desc):
             raise HarnessError('numpy.fft and dense DFT disagree')
         reg = region + ',style={},call={}'.format(
             'alias' if style == 'alias' else 'plain',
-            'first' if call == 1 else 'later')
+            {1: 'first', 2: 'later', 3: 'planned'}[call])
         ok, y, xe = _dft_call(op, dom, x, style)
         if not ok:
             if isinstance(y, HarnessError):
@@ -551,8 +576,15 @@ def _run_dft(desc):
         _floor(dtype)
     lastpar = 'lastodd' if shape[axes[-1]] % 2 else 'lasteven'
 
-    def check_inverse(inv, via, inv_impl, inv_style):
+    def check_inverse(inv, via, inv_impl, inv_style, planned=False):
         reg = region + ',via={},invimpl={},{}'.format(via, inv_impl, lastpar)
+        if planned:
+            reg += ',planned'
+            okp, e = _try(inv.init_fftw_plan)
+            if not okp:
+                fails.add('C18|dft-inverse-raises|{}|{}'.format(
+                    via, reg + ',at=init_fftw_plan'), _exc(e))
+                return
         if inv.domain != op.range or inv.range != op.domain:
             fails.add('C18|dft-inverse-spaces|DiscreteFourierTransformInverse|'
                       + reg, 'inverse maps {!r} -> {!r}'.format(
@@ -619,6 +651,10 @@ def _run_dft(desc):
         else:
             check_inverse(inv, 'direct', impl,
                           'out' if style in ('out', 'alias') else 'oop')
+            if impl == 'pyfftw':
+                check_inverse(inv, 'direct', impl,
+                              'out' if style in ('out', 'alias') else 'oop',
+                              planned=True)
 
     fails.finish()
     nontriv = bool(odd or naxes < nd or permuted or eff_hc or
@@ -929,6 +965,207 @@ def _run_ft(desc):
     nontriv = bool(odd or naxes < nd or permuted or eff_hc or mixed or
                    (impl == 'pyfftw' and style == 'out') or tmp != 'none')
     return Outcome('ok', strata=strata, nontrivial=nontriv)
+
+
+# --------------------------------------------------------------------------
+# call histories on one operator
+
+def _layout(vals, layout):
+    """Array with the given values in C / Fortran / strided memory layout."""
+    if layout == 'C' or vals.ndim == 0:
+        return np.ascontiguousarray(vals)
+    if layout == 'F':
+        return np.asfortranarray(vals)
+    if layout == 'strided':
+        big = np.zeros(tuple(2 * n for n in vals.shape), dtype=vals.dtype)
+        view = big[tuple(slice(None, None, 2) for _ in vals.shape)]
+        view[...] = vals
+        return view
+    raise HarnessError('layout ' + str(layout))
+
+
+def _run_hist(desc):
+    cls = desc['cls']                       # dft | idft | ft | ift
+    shape = tuple(int(n) for n in desc['shape'])
+    nd = len(shape)
+    dtype = np.dtype(desc['dtype'])
+    cdt = _cdtype(dtype)
+    real = dtype.kind == 'f'
+    eps = _eps(dtype)
+    axes_arg = desc['axes']
+    axes = _axes_tuple(axes_arg, nd)
+    naxes = len(axes)
+    hc = bool(desc['halfcomplex'])
+    eff_hc = hc and real
+    sign, impl = desc['sign'], desc['impl']
+    inverse = cls in ('idft', 'ift')
+    is_ft = cls in ('ft', 'ift')
+    fwd_sign = ('-' if sign == '+' else '+') if inverse else sign
+    nondefault = sign != ('+' if inverse else '-')
+    shifts = _shift_list(desc.get('shift', True), naxes)
+    klass = {'dft': 'DiscreteFourierTransform',
+             'idft': 'DiscreteFourierTransformInverse',
+             'ft': 'FourierTransform', 'ift': 'FourierTransformInverse'}[cls]
+    fails = Fails()
+    fails.info = (' [{} {} shape={} axes={} sign={} halfcomplex={} shift={} '
+                  'ops={}]'.format(klass, dtype.name, shape, axes_arg, sign,
+                                   hc, desc.get('shift'),
+                                   [o['op'] + (':' + o.get('xlayout', '') +
+                                               '/' + o.get('style', '')
+                                               if o['op'] == 'call' else '')
+                                    for o in desc['ops']]))
+    base = 'dom={},hc={},impl={}'.format('real' if real else 'complex',
+                                         int(eff_hc), impl)
+    if is_ft and not all(shifts):
+        base += ',unshifted'
+
+    if is_ft:
+        dom = odl.uniform_discr(desc['min'], desc['max'], shape, dtype=dtype)
+        x0, stride = _grid_of(desc)
+        kw = dict(impl=impl, axes=_axes_kw(axes_arg), sign=sign,
+                  halfcomplex=hc, shift=[bool(b) for b in shifts])
+        ctor = FourierTransformInverse if inverse else FourierTransform
+    else:
+        dom = odl.uniform_discr(DFT_MIN[:nd],
+                                [m + c * n for m, c, n in
+                                 zip(DFT_MIN, DFT_CELL, shape)],
+                                shape, dtype=dtype)
+        kw = dict(impl=impl, axes=_axes_kw(axes_arg), sign=sign,
+                  halfcomplex=hc)
+        ctor = DiscreteFourierTransformInverse if inverse else \
+            DiscreteFourierTransform
+    if impl == 'pyfftw':
+        _forget_wisdom()
+    ok, op = _try(ctor, dom, **kw)
+    if not ok:
+        raise Violation('C18|hist-ctor-raises|{}|{}'.format(klass, base),
+                        _exc(op) + fails.info)
+    fspace = op.domain if inverse else op.range     # frequency side
+    exp_fshape = list(shape)
+    if eff_hc:
+        exp_fshape[axes[-1]] = shape[axes[-1]] // 2 + 1
+    if fspace.shape != tuple(exp_fshape) or fspace.dtype != cdt:
+        raise Violation('C18|hist-range|{}|{}'.format(klass, base),
+                        'frequency space {!r}'.format(fspace) + fails.info)
+
+    def reference(x):
+        if is_ft:
+            ref, coords = R.dense_ft(x, x0, stride, axes, shifts, fwd_sign,
+                                     eff_hc)
+            tol, rel = _ft_tol(eps, shape, axes, x0, stride, coords,
+                               float(np.linalg.norm(x.ravel())))
+            tol_inv = max(rel, 64 * eps) * 2 * (math.pi / 2) ** naxes * \
+                float(np.linalg.norm(x.ravel()))
+        else:
+            ref = R.dense_dft(x, axes, fwd_sign, eff_hc)
+            N = int(np.prod([shape[a] for a in axes], dtype=int))
+            tol = 32 * eps * max(1.0, math.log2(max(N, 1))) * float(
+                np.linalg.norm(x.ravel()))
+            tol_inv = 2 * tol
+        return np.asarray(ref), tol + _floor(dtype), tol_inv + _floor(dtype)
+
+    strata = ['hist', 'hist:cls=' + cls, 'hist:impl=' + impl,
+              'hist:dtype=' + dtype.name, 'hist:hc=%d' % eff_hc]
+    if nondefault:
+        strata.append('hist:sign=nondefault')
+    planned = False
+    ncalls = 0
+    for i, o in enumerate(desc['ops']):
+        kind = o['op']
+        if kind in ('init', 'clear'):
+            if kind == 'init':
+                okp, e = _try(op.init_fftw_plan, o.get('effort', 'measure'))
+            else:
+                okp, e = _try(op.clear_fftw_plan)
+            if impl != 'pyfftw':
+                # documented: ValueError without the pyfftw back-end
+                if okp or not isinstance(e, ValueError):
+                    fails.add('C18|hist-plan-numpy|{}|{}'.format(klass, base),
+                              '{}_fftw_plan on a NumPy-backed operator: {}'
+                              ''.format(kind, 'no error' if okp else _exc(e)))
+                strata.append('history:plan-refused(numpy)')
+                continue
+            if not okp:
+                fails.add('C18|hist-plan-crash|{}|{},op={}'.format(
+                    type(e).__name__, base, kind), klass + ': ' + _exc(e))
+                break
+            planned = kind == 'init'
+            strata.append('history:init-plan' if kind == 'init'
+                          else 'history:clear-plan')
+            continue
+        if kind in ('mktmp', 'rmtmp'):
+            if kind == 'mktmp':
+                okp, e = _try(op.create_temporaries, bool(o.get('r', True)),
+                              bool(o.get('f', True)))
+            else:
+                okp, e = _try(op.clear_temporaries)
+            if not okp:
+                fails.add('C18|hist-tmp-crash|{}|{}'.format(
+                    type(e).__name__, base), klass + ': ' + _exc(e))
+                break
+            strata.append('history:' + ('create-temporaries'
+                                        if kind == 'mktmp'
+                                        else 'clear-temporaries'))
+            continue
+        if kind != 'call':
+            raise HarnessError('op ' + str(kind))
+        # ---- one evaluation ------------------------------------------------
+        ncalls += 1
+        rng = np.random.RandomState((int(desc['seed']) + 7919 * i) %
+                                    (2 ** 32))
+        x = rng.standard_normal(shape)
+        if not real:
+            x = x + 1j * rng.standard_normal(shape)
+        x = x.astype(dtype)
+        ref, tol, tol_inv = reference(x)
+        if inverse:
+            inp, want, tl = ref.astype(cdt), x, tol_inv
+        else:
+            inp, want, tl = x, ref, tol
+        xl, ol = o.get('xlayout', 'C'), o.get('olayout', 'C')
+        arr_in = _layout(inp, xl)
+        xe = op.domain.element(arr_in)
+        if o.get('style', 'oop') == 'out':
+            oarr = _layout(np.full(op.range.shape, np.nan,
+                                   dtype=op.range.dtype), ol)
+            out = op.range.element(oarr)
+            okc, y = _try(op, xe, out=out)
+            if okc and y is not out:
+                fails.add('C18|hist-out-identity|{}|{}'.format(klass, base),
+                          '')
+                break
+        else:
+            ol = 'C'
+            okc, y = _try(op, xe)
+        changed = xl != 'C' or ol != 'C'
+        if changed:
+            strata.append('history:layout-change')
+        state = 'planned' if planned else ('layout' if changed else 'plain')
+        reg = '{},state={}'.format(base, state)
+        where = 'op {} ({}, in={}, out={})'.format(
+            i, o.get('style', 'oop'), xl, ol)
+        if not okc:
+            fails.add('C18|hist-call-crash|{}|{}'.format(
+                type(y).__name__, reg), '{} {}: {}'.format(klass, where,
+                                                           _exc(y)))
+            break
+        msg = _check_result(y, op.range, op.range.shape, op.range.dtype)
+        if msg:
+            fails.add('C18|hist-result-type|{}|{}'.format(klass, reg), msg)
+            break
+        err = _maxerr(y.asarray(), want)
+        if not err <= tl:
+            fails.add('C18|hist-value|{}|{}'.format(klass, reg),
+                      '{}: max error {:.3g} > tol {:.3g}'.format(where, err,
+                                                                 tl))
+        if not _bits_equal(xe.asarray(), inp):
+            fails.add('C18|input-modified|{}|{}'.format(klass, reg),
+                      '{}: input changed by {:.3g}'.format(
+                          where, _maxerr(xe.asarray(), inp)))
+    fails.finish()
+    if ncalls == 0:
+        return Outcome('trivial', strata=strata)
+    return Outcome('ok', strata=strata, nontrivial=True)
 
 
 # --------------------------------------------------------------------------
@@ -1245,14 +1482,37 @@ def _run_wav(desc):
     # (4) adjoint
     exact = (wav.orthogonal and mode == 'pywt_periodic' and level >= 1 and
              all(n % (2 ** level) == 0 for n in tsizes))
+    for op_, cls in ((W, 'WaveletTransform'),
+                     (Winv, 'WaveletTransformInverse')):
+        if bool(op_.is_orthogonal) != bool(wav.orthogonal) or \
+                bool(op_.is_biorthogonal) != bool(wav.biorthogonal):
+            fails.add('C18|wav-orthogonality-flag|{}|{}'.format(cls, region),
+                      'is_orthogonal={} is_biorthogonal={} but pywt.Wavelet '
+                      'says {} / {}'.format(op_.is_orthogonal,
+                                            op_.is_biorthogonal,
+                                            wav.orthogonal, wav.biorthogonal))
     ok, adj = _try(lambda: W.adjoint)
     if not wav.orthogonal:
-        if not ok and isinstance(adj, (OpNotImplementedError,
-                                       NotImplementedError)):
+        # documented: OpNotImplementedError if not orthogonal
+        for op_, cls in ((W, 'WaveletTransform'),
+                         (Winv, 'WaveletTransformInverse')):
+            oka, a = (ok, adj) if op_ is W else _try(lambda: Winv.adjoint)
+            if not oka and isinstance(a, (OpNotImplementedError,
+                                          NotImplementedError)):
+                continue
+            if not oka:
+                fails.add('C18|wav-adjoint-raises|{}|{}'.format(cls, region),
+                          _exc(a))
+                continue
+            msg = 'an adjoint is offered for a non-orthogonal wavelet'
+            if space.size <= 64 and dtype.kind == 'f':
+                okd, res = _try(flat.adjoint_defect, op_, a)
+                msg += '; its Gram defect is {}'.format(
+                    '{:.3g}'.format(res[0]) if okd else _exc(res))
+            fails.add('C18|wav-adjoint-offered|{}|{}'.format(cls, region),
+                      msg)
+        if not fails:
             strata.append('wav:adjoint-unavailable(biorthogonal)')
-        elif not ok:
-            fails.add('C18|wav-adjoint-raises|WaveletTransform|' + region,
-                      _exc(adj))
     elif not ok:
         fails.add('C18|wav-adjoint-raises|WaveletTransform|' + region,
                   _exc(adj))
@@ -1317,6 +1577,8 @@ def run_case(desc):
         return _run_grid(desc)
     if kind == 'wav':
         return _run_wav(desc)
+    if kind == 'hist':
+        return _run_hist(desc)
     raise HarnessError('unknown kind {!r}'.format(kind))
 
 
@@ -1658,15 +1920,84 @@ def _wav_case(draw, tier):
                                      hi=4, scale=1.0))}
 
 
+@st.composite
+def _hist_case(draw):
+    cls = draw(st.sampled_from(['dft', 'idft', 'ft', 'ift']))
+    is_ft = cls in ('ft', 'ift')
+    inverse = cls in ('idft', 'ift')
+    nd = draw(st.sampled_from([1, 2, 2, 3]))
+    shape = [draw(st.sampled_from([2, 3, 4, 5, 6, 8])) for _ in range(nd)]
+    while int(np.prod(shape)) > 130:
+        shape[int(np.argmax(shape))] = 3
+    axes = draw(_axes_descs(nd, allow_none=False, allow_int=False))
+    mode = draw(st.sampled_from(['c2c', 'c2c', 'r2hc', 'r2c']))
+    if mode == 'r2c' and cls == 'idft':
+        mode = 'c2c'          # inverse of the real full DFT: recorded finding
+    real = mode != 'c2c'
+    dtype = draw(st.sampled_from(['float64', 'float32'] if real else
+                                 ['complex128', 'complex64']))
+    hc = mode == 'r2hc'
+    default = '+' if inverse else '-'
+    if hc:
+        sign = default
+    else:
+        sign = draw(st.sampled_from([default, '+' if default == '-'
+                                     else '-']))
+    impl = draw(st.sampled_from(['pyfftw', 'pyfftw', 'pyfftw', 'numpy']))
+    desc = {'kind': 'hist', 'cls': cls, 'shape': shape, 'dtype': dtype,
+            'axes': axes, 'halfcomplex': hc, 'sign': sign, 'impl': impl,
+            'seed': draw(st.integers(0, 2 ** 31 - 1))}
+    if is_ft:
+        mins, maxs = draw(_domain(shape))
+        desc['min'], desc['max'] = mins, maxs
+        if real:
+            desc['shift'] = True
+        else:
+            desc['shift'] = draw(st.sampled_from([True, True, False]) |
+                                 st.lists(st.booleans(), min_size=len(axes),
+                                          max_size=len(axes)))
+    ops = []
+    kinds = ['call', 'call', 'call', 'init', 'init', 'clear']
+    if is_ft:
+        kinds += ['mktmp', 'rmtmp']
+    for _ in range(draw(st.integers(2, 6))):
+        k = draw(st.sampled_from(kinds))
+        if k == 'call':
+            o = {'op': 'call',
+                 'style': draw(st.sampled_from(['oop', 'out'])),
+                 'xlayout': draw(st.sampled_from(['C', 'C', 'F',
+                                                  'strided']))}
+            if o['style'] == 'out':
+                o['olayout'] = draw(st.sampled_from(['C', 'C', 'F',
+                                                     'strided']))
+        elif k == 'init':
+            o = {'op': 'init',
+                 'effort': draw(st.sampled_from(['measure', 'estimate']))}
+        elif k == 'mktmp':
+            o = {'op': 'mktmp', 'r': draw(st.booleans()),
+                 'f': draw(st.booleans())}
+        else:
+            o = {'op': k}
+        ops.append(o)
+    if not any(o['op'] == 'call' for o in ops):
+        ops.append({'op': 'call', 'style': 'oop', 'xlayout': 'C'})
+    desc['ops'] = ops
+    return desc
+
+
 def strategy(tier):
     return st.sampled_from(['ft'] * 9 + ['wav'] * 8 + ['gauss'] +
-                           ['grid'] * 2).flatmap(
+                           ['grid'] * 2 + ['hist'] * 6).flatmap(
         lambda k: {'ft': _ft_case(), 'wav': _wav_case(tier),
-                   'gauss': _gauss_case(tier), 'grid': _grid_case()}[k])
+                   'gauss': _gauss_case(tier), 'grid': _grid_case(),
+                   'hist': _hist_case()}[k])
 
 
 REQUIRED_STRATA = [
-    'dft', 'dft:fwd', 'dft:inv', 'ft', 'gauss', 'grid', 'wav',
+    'dft', 'dft:fwd', 'dft:inv', 'ft', 'gauss', 'grid', 'wav', 'hist',
+    'history:init-plan', 'history:clear-plan', 'history:layout-change',
+    'hist:sign=nondefault', 'hist:cls=dft', 'hist:cls=idft', 'hist:cls=ft',
+    'hist:cls=ift',
     'dft:impl=pyfftw',
     'dft:style=alias', 'dft:permuted-axes', 'dft:negative-axes', 'dft:odd',
     'ft:shift=mixed', 'ft:tmp=rf', 'ft:tmp=create', 'ft:impl=pyfftw',
